@@ -153,6 +153,13 @@ def g_riemann():
     return functions_group('riemann/utils.py', 'Riemann', specs, inst_attrs=IG)
 
 
+@group('catalogue')
+def g_catalogue():
+    import catalogue
+    cat = catalogue.build()
+    return {'Catalogue': (catalogue.emit(cat), cat)}
+
+
 def main(argv):
     out = os.path.join(os.path.dirname(os.path.dirname(os.path.abspath(__file__))), 'coq', 'gen')
     names = []
